@@ -171,6 +171,17 @@ def handle (payload : String) : String :=
         | some st => s!"ok {st.e},{st.t},{st.g}"
         | none => "err:type")
      | none => "err:bad-request")
+  | ["settypefrom", st0, tok] =>
+    -- `Atom(e, atype=t, geom=g).set_mol2_type(tok)`: the state the token is applied to matters
+    (match st0.splitOn ",", strOfHex? tok with
+     | [e, t, g], some s =>
+       (match e.toNat?, t.toNat?, g.toNat? with
+        | some e, some t, some g =>
+          (match tt.setMol2Type ⟨e, t, g⟩ (codesOf s) with
+           | some st => s!"ok {st.e},{st.t},{st.g}"
+           | none => "err:type")
+        | _, _, _ => "err:bad-request")
+     | _, _ => "err:bad-request")
   | ["float", tok] =>
     (match strOfHex? tok with
      | some s => (match parseFloat s with | some x => "ok " ++ showNum x | none => "err:value")
